@@ -13,6 +13,7 @@ Front(s) == SubSeq(s, 1, Len(s) - 1)
 Leaf(i) == <<"leaf", <<i>>>>
 
 IsOpTok(t) == t \in {"U", "X", "O"}
+IsOperand(t) == t \notin {"(", ")", "U", "X", "O"}      \* "a" in CondParser/Lexer/AhbSplit; concrete operand names in Resolve
 RECURSIVE BalancedFrom(_, _, _)
 BalancedFrom(ts, i, d) == IF i > Len(ts) THEN d = 0
                           ELSE IF ts[i] = "(" THEN BalancedFrom(ts, i + 1, d + 1)
@@ -31,7 +32,7 @@ WellFormed(ts) ==
 \* positions are pairs <<token, operand number>>
 RECURSIVE Number(_, _, _)
 Number(ts, i, n) == IF i > Len(ts) THEN <<>>
-                    ELSE IF ts[i] = "a" THEN <<<<"a", n + 1>>>> \o Number(ts, i + 1, n + 1)
+                    ELSE IF IsOperand(ts[i]) THEN <<<<ts[i], n + 1>>>> \o Number(ts, i + 1, n + 1)
                     ELSE <<<<ts[i], 0>>>> \o Number(ts, i + 1, n)
 RECURSIVE Depths(_, _, _)     \* Depths(ps,i,d): sequence of bracket depths AT each position (depth of "(" = outer depth)
 Depths(ps, i, d) == IF i > Len(ps) THEN <<>>
@@ -42,7 +43,8 @@ Depths(ps, i, d) == IF i > Len(ps) THEN <<>>
 Cuts(ps, o) ==
   LET ds == Depths(ps, 1, 0) IN
   IF o = "then"
-  THEN {i \in 1..(Len(ps) - 1) : ds[i] = 0 /\ ds[i + 1] = 0 /\ ps[i][1] \in {"a", ")"} /\ ps[i + 1][1] \in {"a", "("}}
+  THEN {i \in 1..(Len(ps) - 1) : ds[i] = 0 /\ ds[i + 1] = 0 /\ (IsOperand(ps[i][1]) \/ ps[i][1] = ")")
+                                                         /\ (IsOperand(ps[i + 1][1]) \/ ps[i + 1][1] = "(")}
   ELSE {i \in 1..Len(ps) : ds[i] = 0 /\ IsOpTok(ps[i][1]) /\ OpOf(ps[i][1]) = o}
 Enclosed(ps) == Len(ps) >= 2 /\ ps[1][1] = "(" /\ ps[Len(ps)][1] = ")"
                 /\ LET ds == Depths(ps, 1, 0) IN \A i \in 2..(Len(ps) - 1) : ds[i] >= 1
